@@ -193,7 +193,10 @@ func MannWhitneyUTest(x1, x2 []float64, alt LocationHypothesis) (*MannWhitneyUTe
 			p = dist.CDF(U1)
 
 		case LocationGreater:
-			p = 1 - dist.CDF(U1-1)
+			// With ties U moves in steps of 1/2, so the
+			// largest value below U1 is U1-1/2. (Without
+			// ties CDF rounds that down to U1-1.)
+			p = 1 - dist.CDF(U1-0.5)
 		}
 	} else {
 		// Use normal approximation (with tie and continuity
